@@ -124,4 +124,11 @@ PROPS = {
         trusted_base=COMMON_TB + ['Cache.v is a hand model of lib.rs:48-150: two maps keyed by the path as given, get-or-insert under one lock each, loader panics leave the map unchanged (after the repair), the rest of the call is pure; tied by RunC08.corr (outcome classes of every call, the sequential log of the state machine, and digest equality exactly when (query, schema, options) contents coincide)', 'std::sync::Mutex gives the atomicity of each critical section; lazy_static initialisation; that equality of token streams is equality of their digests (64-bit FNV-1a)', 'files do not change during a history; fresh-process equality is observed, not proved', 'that generate_module_token_stream_inner is a pure function of (query text, schema, options) — it reads no global state (BTreeSet / BTreeMap orderings only)'],
         assumptions=['options are compared by the four option sets the harness uses'],
     ),
+    "C07": dict(
+        coq_props=['Properties/C07.v'],
+        run_modules=['RunC07.v'],
+        harness_cmd='c07',
+        trusted_base=COMMON_TB + ["Schema.schema_of_sdl / SchemaJson.schema_of_json are hand models of graphql_parser_conversion.rs and json_conversion.rs into a name-based, order-preserving abstract schema; tied by RunC07: the model predicts the SDL output exactly (corr), the JSON documents fed to the implementation map through the model of the JSON builder to the SDL builder's schema (corr_json_builder), and the harness's renderer agrees with the theorem's `render` (corr_render)", "serde's reading of the introspection document (both response shapes through the untagged IntrospectionResponse) and graphql_parser's reading of SDL", '`render` is the specification of what a spec-compliant server answers to the introspection query (section 4 of the GraphQL spec): kinds, ofType chains, interfaces, possibleTypes, enumValues, inputFields, isDeprecated / deprecationReason, isOneOf, root type names, extensions folded into their objects'],
+        assumptions=['wf_sdl: the SDL builder does not panic (all names resolve), built-in scalars are not re-declared, one definition per object type', '`__` introspection types listed by a server are additional, unreferenced types: covered by the correspondence, not by the theorem'],
+    ),
 }
